@@ -61,7 +61,7 @@ CanCastLiteralM(t1, tl) ==
   \/ t1.base = "Complex" /\ tl.base \in {"Float", "Int", "UInt"}
 
 ImplicitCastM(op, t1, t2) ==
-  IF op = "Div" /\ ~(t1.base = "Float" \/ t2.base = "Float")
+  IF op = "Div" /\ ~(t1.base \in {"Float", "Complex"} \/ t2.base \in {"Float", "Complex"})
     THEN Mk("Float", 7, "F")
     ELSE PromoteTypesM(t1, t2)
 =============================================================================
